@@ -109,6 +109,11 @@ def items(tier, seed):
         for m1 in free:
             for m2 in grad:
                 extra += [(A, m1, m2), (A, m2, m1), (A, subs[0], m1, m2), (A, m1, edits[0], m2), (A, m1, subs[0], m2)]
+    # a failed edit in the middle: solve, subject_to([.., <not a constraint>]) raises, solve again
+    for A in objs:
+        for C_ in subs:
+            for m1 in ms:
+                extra += [(A, m1, ("subfail", C_[1]), m1), (A, ("subfail", C_[1]), m1), (A, m1, ("subfail", C_[1]), ("read", ""))]
     if tier == "thorough":
         # all histories up to length 4; the length-5 layer is sampled (VERIF_SEED) down to about 80000 histories
         import random as _r
@@ -285,6 +290,18 @@ def _history_path(hist, planted=False):
             p.subject_to(cs if len(cs) > 1 else cs[0])
             cur_cons = cur_cons + cs
             ref_cons = ref_cons + CONS[arg]
+        elif op == "subfail":
+            # subject_to with a list whose LAST element is not a constraint: the call raises; whatever part of the
+            # list the problem kept afterwards is part of the current state (read back from problem.constraints)
+            cs = w.cons[arg]
+            before = len(p.constraints)
+            try:
+                p.subject_to(list(cs) + [True])
+            except Exception:  # noqa: BLE001
+                pass
+            kept = len(p.constraints) - before
+            cur_cons = cur_cons + list(p.constraints)[before:]
+            ref_cons = ref_cons + CONS[arg][:kept]
         elif op in ("lb", "ub"):
             w.nb += 1
             name = f"b{w.nb}"
@@ -457,6 +474,16 @@ def replay(payload):
         elif op == "sub":
             cs = w.cons[arg]
             p.subject_to(cs if len(cs) > 1 else cs[0]); cur_cons = cur_cons + cs; ref_cons = ref_cons + CONS[arg]
+        elif op == "subfail":
+            cs = w.cons[arg]
+            before = len(p.constraints)
+            try:
+                p.subject_to(list(cs) + [True])
+            except Exception:  # noqa: BLE001
+                pass
+            kept = len(p.constraints) - before
+            cur_cons = cur_cons + list(p.constraints)[before:]
+            ref_cons = ref_cons + CONS[arg][:kept]
         elif op in ("lb", "ub"):
             setattr(w.b.objs[arg], op, rng.uniform(-0.9, -0.1) if op == "lb" else rng.uniform(2.0, 3.0))
         else:
